@@ -11,10 +11,10 @@ COMMON_NOTE = (
     "canonicalisation in harness/sut.py, Fraction/JSON wire, Lean driver decoding); float64 is treated as exact on the dyadic "
     "input lattice (DESIGN.md §3); numpy/pandas/xarray/geographiclib behaviour is modelled, not verified. C01, C03, C04, C05, C07, C09, C11, C12, C14, C19, C20 also "
     "have source pins: literal tables, signature defaults, the layout dispatch of Config.__init__ (C07) and the window comparisons of the stream front ends (C05) "
-    "read from /repo by harness/extract.py (Python ast) and checked by the kernel against IoosQc/Theorems/SourcePin.lean on every run. C03, C04, C05, C06, C08, C09, C10, C11, C12, C13, C14, C18, C19 additionally have a TRANSLATED model: harness/translate.py "
+    "read from /repo by harness/extract.py (Python ast) and checked by the kernel against IoosQc/Theorems/SourcePin.lean on every run. C03, C04, C05, C06, C07, C08, C09, C10, C11, C12, C13, C14, C18, C19 additionally have a TRANSLATED model: harness/translate.py "
     "(Python ast -> Lean, a translator that raises on anything outside its vocabulary) regenerates the array-level Lean definitions of ALL ELEVEN QC test "
     "functions (gross_range, valid_range, location, climatology + ClimatologyConfig.check, spike, rate_of_change, flat_line, attenuated_signal, "
-    "density_inversion, pressure_increasing, speed), of qartod_compare, Call.run, collect_results_dict and PandasStore.save from /repo's current source on every run and the kernel checks that they are the "
+    "density_inversion, pressure_increasing, speed), of qartod_compare, ContextConfig's call extraction, Call.run, collect_results_dict and PandasStore.save from /repo's current source on every run and the kernel checks that they are the "
     "definitions of IoosQc/Model/NpSrc.lean / NpAgg.lean / NpStore.lean / NpCollect.lean / NpCall.lean, which Theorems/NpSrc … NpSrc9 + NpRefine prove equal to the pointwise models the property "
     "theorems are about (theorems Cxx_src_*; Theorems/SrcProps restates the property theorems directly about the translated programs, Cxx_prog_*; numpy.ma's data-under-mask semantics, strided windows, index arrays, for loops "
     "modelled in Model/Np and compared primitive by primitive with the installed numpy on every run); a rewritten body makes that pin 'reshaped' — "
@@ -115,7 +115,8 @@ CHECKS.update({
             "dispatch of Config on the parsed tree yields one call per configured (stream, module, test) for all four layouts. The eight "
             "carriers (YAML / JSON / files / xarray attributes) are decoded by third-party code and are covered by the correspondence "
             "only (12 carriers x 4 layouts on generated configurations). C07_pin_layout: the chain of layout tests of Config.__init__ (keys, order, "
-            "depth threshold, default stream key) read from the source is the chain the model dispatches on.",
+            "depth threshold, default stream key) read from the source is the chain the model dispatches on. C07_src_context: the stream / package / test loops "
+            "of ContextConfig.__init__, regenerated from the source by harness/translate.py, equal the model contextCalls.",
             "Lean 4 proof (refinement: typed configuration -> written tree -> calls) + differential correspondence over carriers"),
     "C15": ("Theorems C15_data, C15_time, C15_factor, C15_main (+ regression witness C15_data_bad_witness for fixed finding F-11): branch "
             "logic of the input normalisation; that numpy / pandas coercions behave as modelled is checked by running every carrier of "
